@@ -77,4 +77,21 @@ def demoStream : Bytes :=
 example : (swFeed demoU init demoStream).delivered = [2, 3] ∧ (swFeed demoU init demoStream).st = .alive := by decide
 example : (ctlFeed demoU 8 init demoStream).delivered = [2] ∧ (ctlFeed demoU 8 init demoStream).st = .dead := by decide
 
+
+/-- **ctl_disconnect_stops** (repair C09-2 seen from the read loop): whatever the handlers do, within one `read()`
+nothing is dispatched after a message whose handler disconnected the connection — every newly delivered message except
+possibly the last has a handler that left the connection up. -/
+theorem ctl_disconnect_stops (U : Unpack Msg) (D : Msg → Bool) (fuel : Nat) (buf : Bytes) (off : Nat) (acc : List Msg) :
+    ∃ new, (ctlLoopD U D 8 fuel false buf off acc).2.1 = acc ++ new ∧ ∀ m ∈ new.dropLast, D m = false :=
+  ctlLoopD_last U D 8 fuel buf off acc
+
+/-- …and when no handler disconnects, the loop with the `disconnected` test is exactly the loop all other theorems of
+C02/C10 are about -/
+theorem ctl_no_disconnect_same (U : Unpack Msg) (fuel : Nat) (buf : Bytes) (off : Nat) (acc : List Msg) :
+    ctlLoopD U (fun _ => false) 8 fuel false buf off acc = ctlLoop U 8 fuel buf off acc :=
+  ctlLoopD_never U 8 fuel buf off acc
+
+example : (ctlFeedD demoU (fun m => m == 2) 8 init
+    [1,2,0,8,0,0,0,1,  1,3,0,8,0,0,0,5,  1,4,0,8,0,0,0,6]).delivered = [2] := by decide
+
 end Pox.C10
